@@ -699,7 +699,12 @@ pub fn block_on<T: 'static>(future: impl Future<Output = T>) -> T {
             }
             CallbackCode::Yield => {
                 let set = state.shared.waitable_set.try_lock().unwrap();
-                event = set.as_ref().unwrap().poll()
+                event = match set.as_ref() {
+                    Some(set) => set.poll(),
+                    // Nothing has been registered so far, e.g. the future
+                    // only yielded, so there's no event to pick up.
+                    None => (EVENT_NONE, 0, 0),
+                }
             }
             CallbackCode::Wait(_) => {
                 let set = state.shared.waitable_set.try_lock().unwrap();
